@@ -216,3 +216,39 @@ def parse_dump(path):
                 break
         states.append(st)
     return states
+
+
+def parse_sim(path):
+    """Parse one behaviour file written by `tlc -simulate file=...`: returns [(action_label, {var: value})]."""
+    import re
+    txt = open(path).read()
+    out = []
+    parts = re.split(r"\n(?=\\\* <)", txt)
+    for part in parts:
+        m = re.search(r"\\\* <(\w+)[^>]*>\s*\nSTATE_\d+ ==", part)
+        if not m:
+            continue
+        body = part[m.end():]
+        # cut at the module footer if present
+        k = body.find("\n====")
+        if k >= 0:
+            body = body[:k]
+        st = {}
+        i = 0
+        n = len(body)
+        while True:
+            j = body.find("/\\", i)
+            if j < 0:
+                break
+            p = _P(body, j + 2)
+            p.ws()
+            a = p.i
+            while p.i < n and (body[p.i].isalnum() or body[p.i] == "_"):
+                p.i += 1
+            name = body[a:p.i]
+            p.expect("=")
+            st[name] = p.value()
+            i = p.i
+        lab = re.search(r"\\\* <(\w+)(\([^)]*\))?", part)
+        out.append((lab.group(1) + (lab.group(2) or ""), st))
+    return out
